@@ -46,7 +46,7 @@ fn cfg_for(fat: u8, tiny: bool) -> RunCfg {
         _ => (67_400, 1),
     };
     RunCfg {
-        vol: VolCfg { source: VolSource::Format, fat, bps: 512, spc, fats: 2, root_entries: if tiny { 16 } else { 64 }, total_sectors: total, extra_sectors: 0, ballast_keep: if tiny { Some(3) } else { None }, ballast_mode: 0, fsinfo_mode: 0, hint: None, status: 0, label: false, tail_taken: 0 },
+        vol: VolCfg { source: VolSource::Format, fat, bps: 512, spc, fats: 2, root_entries: if tiny { 16 } else { 64 }, total_sectors: total, extra_sectors: 0, ballast_keep: if tiny { Some(3) } else { None }, ballast_mode: 0, fsinfo_mode: 0, hint: None, status: 0, label: false, tail_taken: 0, dirty_medium: false },
         access_date: false,
         strict: true,
         oem: Oem::Lossy,
